@@ -21,5 +21,14 @@ int main(int argc, char **argv) {
         R.write();
         vf::g_active_report = nullptr;
     }
+    if (o.want("ownership_object_history")) {
+        vf::report R("C07", "ownership_object_history", o);
+        vf::g_active_report = &R;
+        vf::team T(1, o, true);
+        scn::ownership_object_history(o, R, o.cases);
+        T.export_hits(R);
+        R.write();
+        vf::g_active_report = nullptr;
+    }
     return 0;
 }
